@@ -26,6 +26,16 @@ CLAIMS = {
         technique="must-fact dataflow with history facts and summaries; return-path enumeration of the guard; "
                   "predicate normalisation for the expiry tests",
         design="5 C04"),
+    "C13": dict(
+        text="Decides the whole stated property structurally for the configuration that builds here: a whole-program "
+             "taint analysis from every recv*/read of the DNS socket to every system()/popen()/exec*() call shows that "
+             "no %s argument of a command builder carries peer text (only literals, local configuration and inet_ntoa "
+             "re-serialisations), that peer-derived integers formatted into a command are dominated by constant lower "
+             "and upper bounds, and that the sscanf conversions splitting the login reply are width-limited. It found "
+             "and now guards the repair of the inet_addr() trailing-text injection in tun_setip.",
+        technique="flow-insensitive field-based taint propagation over the call graph with a libc model, plus "
+                  "must-fact range dominance at the sink",
+        design="5 C13"),
 }
 
 NA = {
